@@ -261,6 +261,7 @@ func laExec(r *core.Run, c laCase) (*core.Fail, string) {
 	var dstOld []interface{}
 	var dstBuilt *atlas.Built
 	var dstSnap atlas.Snap
+	aliased := "" // "a" / "b": the destination is that operand
 	nOut := len(want.El)
 	if invalid && c.mode != "safe" {
 		return nil, "skip:no-defined-result"
@@ -271,6 +272,19 @@ func laExec(r *core.Run, c laCase) (*core.Fail, string) {
 			dstOld[i] = d.Code(i%4 + 1)
 		}
 		dst = mkContig(d, want.Shape, dstOld)
+		if strings.HasSuffix(c.mode, "=a") || strings.HasSuffix(c.mode, "=b") {
+			// the destination IS one of the operands: refused, or computed from the operands as they were
+			src, el := A, arrA.El
+			if strings.HasSuffix(c.mode, "=b") {
+				src, el = B, arrB.El
+			}
+			if src == nil || !ref.EqInts([]int(src.T.Shape()), want.Shape) {
+				return nil, "skip:shape"
+			}
+			dst = src.T
+			copy(dstOld, el)
+			aliased = c.mode[len(c.mode)-1:]
+		}
 		if strings.HasSuffix(c.mode, ":T") {
 			// a lazily transposed destination
 			db, err := atlas.Build(d, want.Shape, dstOld, "T")
@@ -291,9 +305,9 @@ func laExec(r *core.Run, c laCase) (*core.Fail, string) {
 			dstSnap = db.Snapshot()
 		}
 		switch c.mode {
-		case "reuse", "reuse:T", "reuse:S":
+		case "reuse", "reuse:T", "reuse:S", "reuse=a", "reuse=b":
 			opts = append(opts, tensor.WithReuse(dst))
-		case "incr", "incr:T", "incr:S":
+		case "incr", "incr:T", "incr:S", "incr=a", "incr=b":
 			opts = append(opts, tensor.WithIncr(dst))
 		case "reuse+incr":
 			r2 := mkContig(d, want.Shape, dstOld)
@@ -374,11 +388,21 @@ func laExec(r *core.Run, c laCase) (*core.Fail, string) {
 		r.Op(1)
 	}
 	what := fmt.Sprintf("%s of %v (%s) and %v (%s) mode %s", c.op, c.sa, c.la, c.sb, c.lb, c.mode)
-	if ch := A.Changed(snapA); ch != "" {
+	// (an operand that is also the destination: written when the call succeeds; when it is refused its ELEMENTS are what
+	// they were - the bookkeeping of a destination (view flag, pending transpose) is normalised before the engine is asked)
+	if aliased == "a" && o.Class != "ok" {
+		if cells := A.ChangedCells(snapA); len(cells) > 0 {
+			return core.F("operand-changed", "a", "%s was refused (%s) but changed elements %v of operand a, which was also the destination", what, o.Class, clip(cells)), o.Class
+		}
+	} else if ch := A.Changed(snapA); ch != "" && aliased != "a" {
 		return core.F("operand-changed", "a", "%s changed operand a: %s (outcome %s)", what, ch, o.Class), o.Class
 	}
 	if B != nil {
-		if ch := B.Changed(snapB); ch != "" {
+		if aliased == "b" && o.Class != "ok" {
+			if cells := B.ChangedCells(snapB); len(cells) > 0 {
+				return core.F("operand-changed", "b", "%s was refused (%s) but changed elements %v of operand b, which was also the destination", what, o.Class, clip(cells)), o.Class
+			}
+		} else if ch := B.Changed(snapB); ch != "" && aliased != "b" {
 			return core.F("operand-changed", "b", "%s changed operand b: %s (outcome %s)", what, ch, o.Class), o.Class
 		}
 	}
@@ -430,7 +454,7 @@ func laExec(r *core.Run, c laCase) (*core.Fail, string) {
 	if f := cmpArr(res, want, what, approx); f != nil {
 		return f, o.Class
 	}
-	if dst != nil && res == dst && strings.HasPrefix(c.mode, "reuse") && c.mode != "reuse+incr" {
+	if dst != nil && res == dst && strings.HasPrefix(c.mode, "reuse") && c.mode != "reuse+incr" && aliased == "" {
 		// the destination now holds a plain result: nothing of its earlier state (a pending lazy transpose) is left that
 		// a later UT - or a later product that looks at that bookkeeping - would act on
 		call(func() error { res.UT(); return nil })
@@ -476,7 +500,7 @@ func runC09(r *core.Run) {
 	quick := isQuick(r)
 	maxd := 3
 	dts := ref.FC4
-	modes := []string{"safe", "reuse", "incr", "reuse+incr", "reuse:T", "incr:T", "reuse:S", "incr:S"}
+	modes := []string{"safe", "reuse", "incr", "reuse+incr", "reuse:T", "incr:T", "reuse:S", "incr:S", "reuse=a", "reuse=b", "incr=a", "incr=b"}
 	lays := atlas.L5 // incl. Cl, the CLONE of a sliced view: strided storage that is not a view
 	vss := []string{"int", "frac"}
 	r.SetBound("dims", fmt.Sprintf("every dimension in 1..%d; rank-3 tensors for TensorMul/Dot", maxd))
